@@ -23,6 +23,9 @@ import (
 	"context"
 	"fmt"
 	"math/rand"
+	"os"
+	"sort"
+	"strings"
 	"sync"
 	"sync/atomic"
 	"time"
@@ -41,6 +44,8 @@ type FaultOptions struct {
 	Workers int
 	Driver  *Driver
 	Factory TargetFactory
+	// DelSamples (SwitchSweeps only): how many DELs between the first and the last one are candidates
+	DelSamples int
 }
 
 // fenv is an Env whose stream consists of three batches of units.
@@ -621,20 +626,48 @@ func FaultSweeps(run *harness.Run, o FaultOptions) {
 		run.Seen("modes", string(mode))
 		x.flushSweep(fe, key)
 		x.recoverySweep(fe, key)
-		// switchSweep (below) is not run: its first trial did not finish inside the quick tier's
-		// watchdog (a start on the cluster double scans 16384 slot tags per StartPoint) and there was
-		// no time left to bound it; seed C17-N, which it was written for, stays open (DESIGN §8)
-		_ = x.switchSweep
 	})
+}
+
+// SwitchSweeps runs the format-switch lost-reply sweep (below) for o.NCases cases; the recovery
+// format the state is written under rotates over the three replay modes.
+func SwitchSweeps(run *harness.Run, o FaultOptions) {
+	x := &explorer{run: run, o: Options{Driver: o.Driver, Factory: o.Factory}, sem: make(chan struct{}, 24), seenSubs: map[string]bool{}}
+	harness.Parallel(o.NCases, o.Workers, func(i int) {
+		key := fmt.Sprintf("switch-fault-%d", i)
+		if !run.WantCase(key) {
+			return
+		}
+		mode := []config.ReplayMode{config.ReplayModePipeline, config.ReplayModeSync, config.ReplayModeParallel}[i%3]
+		fe := newFaultEnv(run.Rand(key), key, mode, o.Driver, o.Factory)
+		x.switchSweep(fe, key, run.Rand(key+"/pick"), o.DelSamples)
+	})
+}
+
+// switchWrite: is q one of the requests of a start that change the target (the candidates of the
+// lost-reply sweep: a lost reply of a read changes nothing the next attempt could trip over)?
+func switchWrite(q *fakeredis.Req) bool {
+	if q.Kind == fakeredis.ReqQueued {
+		return false
+	}
+	switch q.Cmd {
+	case "HSET", "HSETNX", "HMSET", "SET", "ZADD", "DEL", "UNLINK", "HDEL", "ZREM", "EXPIRE", "PEXPIRE", "MULTI", "EXEC", "RESTORE":
+		return true
+	}
+	return false
 }
 
 // switchSweep: (3) over the requests of a start under the OTHER recovery format (the replay mode
 // was changed between two starts: start-up bookkeeping seeds the other namespace and repoints the
-// index) on a cluster of one primary, lost-reply flavour: request k is executed and its connection
-// closed before the reply; the start fails or not as the tool sees fit, the start is attempted
-// again (the syncer restarts), and the position that start finds must not be smaller than the one
-// an unfaulted switch finds on the same state.
-func (x *explorer) switchSweep(fe *fenv, key string) {
+// index) on a cluster of one primary - the cluster client keeps a pool of connections per node,
+// so a lost reply costs one connection and the client stays usable for whatever the tool does
+// next (clean up, retry).  Lost-reply flavour: the j-th WRITE of the start is executed and its
+// connection closed before the reply; the start fails or not as the tool sees fit, the start is
+// attempted again (the syncer restarts), and the position that start finds must not be smaller
+// than the one an unfaulted switch finds on the same state.  A start on the cluster double costs
+// 65 000 requests (16384 slot tags), so only the writes are candidates: every write that is not a
+// DEL, the first and the last DEL and a PRNG sample of delSamples in between.
+func (x *explorer) switchSweep(fe *fenv, key string, pick *rand.Rand, delSamples int) {
 	run := x.run
 	ctx := context.Background()
 	l0, _, why := fe.gatedRun(nil)
@@ -643,14 +676,22 @@ func (x *explorer) switchSweep(fe *fenv, key string) {
 		return
 	}
 	other := config.ReplayModeSync
+	if fe.C.Mode == config.ReplayModeSync {
+		other = []config.ReplayMode{config.ReplayModePipeline, config.ReplayModeParallel}[pick.Intn(2)]
+	}
 	state := l0.StateAt(l0.NReqs)
 	open := func(tgt Target) (*syncer.RedisOutput, error) { return fe.D.Open(tgt, fe.C, other) }
-	// the unfaulted switch: how many requests the start-up bookkeeping issues, and what it finds
+	// the unfaulted switch: which writes the start-up bookkeeping issues, and what it finds
 	tgt := NewSinglePrimaryCluster(fe.targetOptions())
 	tgt.Replay(reservedWrites(state))
 	seq0 := tgt.Seq()
 	out, err := open(tgt)
-	nOpen := tgt.Seq() - seq0
+	var writes []string // the j-th write of the start (1-based: writes[j-1])
+	for _, q := range tgt.Requests() {
+		if q.Seq > seq0 && switchWrite(&q) {
+			writes = append(writes, q.Cmd)
+		}
+	}
 	if err != nil {
 		tgt.Close()
 		run.Count("switch_sweeps_refused_by_the_tool", 1)
@@ -662,23 +703,70 @@ func (x *explorer) switchSweep(fe *fenv, key string) {
 		run.Inconclusive("%s: switch sweep: unfaulted StartPoint: %v", key, err)
 		return
 	}
-	run.Count("switch_requests_enumerated", nOpen)
-	ctxs := fe.C.Ctx(fe.C.Mode, true) + "|cluster-of-one-primary"
-	for k := int64(1); k <= nOpen; k++ {
+	// the position held before the operation: a start under the OLD format on the same state
+	tgt = NewSinglePrimaryCluster(fe.targetOptions())
+	tgt.Replay(reservedWrites(state))
+	var spOld syncer.StartPoint
+	outOld, err := fe.D.Open(tgt, fe.C, fe.C.Mode)
+	if err == nil {
+		spOld, err = outOld.StartPoint(ctx, fe.IDs)
+	}
+	tgt.Close()
+	if err != nil || spOld.RunId != fe.RunID || spOld.Offset < fe.C.Base {
+		run.Inconclusive("%s: switch sweep: a start under the old format finds %+v (%v)", key, spOld, err)
+		return
+	}
+	if sp0.RunId != spOld.RunId || sp0.Offset < spOld.Offset {
+		run.Violation("mode-switch:"+fmt.Sprintf("%s→%s|cluster-of-one-primary", fe.C.Mode, other)+"|position-regressed|uninterrupted", key,
+			fmt.Sprintf("start under replay mode %s on a state written under %s (cluster of one primary): the switched start finds %+v, a start under the old format finds %+v", other, fe.C.Mode, sp0, spOld),
+			map[string]any{"case": fe.C.String()})
+		return
+	}
+	run.Count("switch_writes_enumerated", int64(len(writes)))
+	var cand, dels []int
+	for j, c := range writes {
+		if c == "DEL" || c == "UNLINK" {
+			dels = append(dels, j+1)
+		} else {
+			cand = append(cand, j+1)
+		}
+	}
+	if len(dels) > 0 {
+		cand = append(cand, dels[0])
+		if len(dels) > 1 {
+			cand = append(cand, dels[len(dels)-1])
+		}
+		for n := 0; n < delSamples && len(dels) > 2; n++ {
+			cand = append(cand, dels[1+pick.Intn(len(dels)-2)])
+		}
+	}
+	sort.Ints(cand)
+	ctxs := fmt.Sprintf("%s→%s|cluster-of-one-primary", fe.C.Mode, other)
+	last := 0
+	for _, j := range cand {
+		if j == last {
+			continue
+		}
+		last = j
 		tgt := NewSinglePrimaryCluster(fe.targetOptions())
 		tgt.Replay(reservedWrites(state))
 		seq0 := tgt.Seq()
 		var fired atomic.Bool
 		what := ""
+		nw := 0 // under the target's lock
 		tgt.SetFault(nil, func(q *fakeredis.Req) bool {
-			if q.Seq == seq0+k && q.Cmd != "CLUSTER" && q.Cmd != "COMMAND" && fired.CompareAndSwap(false, true) {
-				what = q.Cmd
-				if len(q.Args) > 0 {
-					what += " <" + ClassOf(q.Args[0]).String() + ">"
-				}
-				return true
+			if fired.Load() || !switchWrite(q) {
+				return false
 			}
-			return false
+			if nw++; nw != j {
+				return false
+			}
+			fired.Store(true)
+			what = q.Cmd
+			if len(q.Args) > 0 {
+				what += " <" + ClassOf(q.Args[0]).String() + ">"
+			}
+			return true
 		})
 		_, err1 := open(tgt)
 		tgt.SetFault(nil, nil)
@@ -693,23 +781,55 @@ func (x *explorer) switchSweep(fe *fenv, key string) {
 		if err2 == nil {
 			sp2, err3 = out2.StartPoint(ctx, fe.IDs)
 		}
-		reqs := reqTail(tgt, seq0)
+		reqs := switchTail(tgt, seq0)
 		tgt.Close()
+		if os.Getenv("SWITCH_DEBUG") != "" {
+			fmt.Printf("DEBUG %s write %d (%s): first attempt %v | second attempt %v | finds %+v %v | old %+v\n  %s\n", key, j, what, err1, err2, sp2, err3, spOld, strings.Join(reqs, "\n  "))
+		}
 		run.Eval(1)
 		run.Count("switch_faults_run", 1)
 		run.Distinct(fmt.Sprintf("%s|switch-fault|%s|drop|first-start-failed=%v", ctxs, what, err1 != nil))
-		path := fmt.Sprintf("start under replay mode %s on a state written under %s (cluster of one primary): request %d of %d of the start-up bookkeeping (%s) executed, connection closed instead of a reply; start attempted again", other, fe.C.Mode, k, nOpen, what)
+		path := fmt.Sprintf("start under replay mode %s on a state written under %s (cluster of one primary): write %d of %d of the start-up bookkeeping (%s) executed, connection closed instead of a reply; start attempted again", other, fe.C.Mode, j, len(writes), what)
 		wit := map[string]any{"case": fe.C.String(), "unfaulted_switch_finds": fmt.Sprintf("%+v", sp0), "first_attempt_error": fmt.Sprint(err1), "second_attempt_error": fmt.Sprint(err2),
-			"second_attempt_finds": fmt.Sprintf("%+v err=%v", sp2, err3), "requests_of_both_attempts": reqs}
+			"second_attempt_finds": fmt.Sprintf("%+v err=%v", sp2, err3), "writes_of_both_attempts": reqs}
 		switch {
 		case err2 != nil || err3 != nil:
 			// a start that refuses is fail-safe (counted); it must not refuse for ever, but that is
 			// not decided here
 			run.Count("switch_second_attempt_refused", 1)
-		case sp2.RunId != sp0.RunId || sp2.Offset < sp0.Offset:
-			run.Violation("fault|switch|position-lost-after-lost-reply|"+ctxs, key,
-				fmt.Sprintf("%s: the second attempt finds %+v, an unfaulted switch on the same state finds %+v", path, sp2, sp0), wit)
+		case sp2.RunId != spOld.RunId || sp2.Offset < spOld.Offset:
+			run.Violation("mode-switch:"+ctxs+"|position-lost|reply-lost-then-started-again|"+strings.Fields(what)[0], key,
+				fmt.Sprintf("%s: the second attempt finds %+v; before the operation a start under the old format found %+v (an unfaulted switch finds %+v)", path, sp2, spOld, sp0), wit)
 			return
 		}
 	}
+}
+
+// switchTail: the writes (and the index reads) since request `from`, for a witness.
+func switchTail(tgt Target, from int64) []string {
+	var out []string
+	refused := map[string]int{}
+	for _, q := range tgt.Requests() {
+		if q.Seq <= from || !(switchWrite(&q) || q.Cmd == "HGET") {
+			continue
+		}
+		if e, ok := q.Reply.(fakeredis.Err); ok {
+			// (the clean-up of a namespace deletes 256 keys of different slots per DEL, which a
+			// cluster refuses: counted, not listed)
+			refused[q.Cmd+" → -"+strings.Fields(string(e))[0]]++
+			continue
+		}
+		if len(out) > 120 {
+			continue
+		}
+		arg := ""
+		if len(q.Args) > 0 {
+			arg = "<" + ClassOf(q.Args[0]).String() + ">"
+		}
+		out = append(out, fmt.Sprintf("#%d conn%d %s %s", q.Seq, q.Conn, q.Cmd, arg))
+	}
+	for k, n := range refused {
+		out = append(out, fmt.Sprintf("(%d × %s)", n, k))
+	}
+	return out
 }
